@@ -8,6 +8,7 @@ import ast
 from .interp import Closure, Interp, Obj, Raised, Sym, Undecided
 from .loader import AnalysisError, Class, Func, Module
 from .poly import NotPolynomial, Poly, to_poly
+from .rat import rat_eq, to_rat
 
 
 class Logger(Obj):
@@ -33,46 +34,52 @@ class Ref:
 
 
 class Order:
-    """Total preorder over named terms.  `names` maps a polynomial normal form to a name,
-    `rank` maps names to comparable positions (used only through <, ==)."""
+    """Total preorder over named terms.  A term is identified by its rational normal form
+    (equality by cross multiplication); `rank` maps names to comparable positions that are
+    used only through <, ==."""
 
     def __init__(self):
-        self.names = {}
+        self.entries = []  # (Rat, name)
         self.rank = {}
+        self._cache = {}
 
     def name(self, term, name, rank):
-        self.names[poly_of(term)] = name
+        self.entries.append((to_rat(term), name))
         self.rank[name] = rank
+        self._cache.clear()
         return term
 
-    def lookup(self, v):
+    def name_of(self, v):
         try:
-            p = poly_of(v)
+            r = to_rat(v)
         except NotPolynomial:
             return None
-        n = self.names.get(p)
+        key = repr(r)
+        if key in self._cache:
+            return self._cache[key]
+        hit = None
+        for e, n in self.entries:
+            if e.equals(r):
+                hit = n
+                break
+        self._cache[key] = hit
+        return hit
+
+    def lookup(self, v):
+        n = self.name_of(v)
         return None if n is None else self.rank[n]
 
 
 def poly_of(v):
-    """Polynomial normal form; quotients with a non-constant denominator become atoms
-    named by the normal forms of numerator and denominator."""
-    return to_poly(_quot_atoms(v))
+    """Polynomial normal form (raises NotPolynomial for genuine quotients)."""
+    r = to_rat(v)
+    if r.den.is_const() and r.den.const_value() != 0:
+        return r.num.scale(1 / r.den.const_value())
+    raise NotPolynomial(repr(v))
 
 
-def _quot_atoms(v):
-    if isinstance(v, Sym) and v.op in ("add", "sub", "mul", "neg", "div"):
-        args = [_quot_atoms(a) for a in v.args]
-        if v.op == "div":
-            try:
-                d = to_poly(args[1])
-                if not d.is_const():
-                    n = to_poly(args[0])
-                    return Sym("quot", repr(n), repr(d))
-            except NotPolynomial:
-                return Sym("quot", repr(args[0]), repr(args[1]))
-        return Sym(v.op, *args)
-    return v
+def same_value(a, b):
+    return rat_eq(a, b)
 
 
 class FinamInterp(Interp):
